@@ -48,6 +48,7 @@ extern "C" void harness(void)
   { bool threw = false; try { m->f(8); } catch (vf_reported &) { threw = true; }
     VCLAIM(4, threw && vf_nreports == 1 && vf_last.fatal, "C04.setup_no_match_listing"); }
   want = 1;
+  VCLAIM(3, e->is_satisfied() == (c >= L) && e->is_saturated() == (c == H), "C03.flags_track_the_count_after_being_listed_in_a_report");
 #if VF_ORDER == 4
   delete m;
   VCLAIM(4, vf_nreports == want, "C04.already_named_not_reported_again_when_mock_dies_first");
@@ -56,6 +57,8 @@ extern "C" void harness(void)
 #else
   m->f(7);
   VCLAIM(4, vf_nreports == want && cm->sequences->get_calls() == c + 1, "C04.setup_handled_call_after_listing");
+  VCLAIM(16, vf_nok == 1, "C16.accepted_call_after_a_no_match_listing_still_gets_its_ok_report");
+  VCLAIM(1, vf_nreports == want && cm->sequences->get_calls() == c + 1, "C01.accepted_after_an_earlier_no_match_listing");
   e.reset();
   VCLAIM(4, vf_nreports == want, "C04.already_named_not_reported_again_after_handling_more_calls");
   delete m;
@@ -82,6 +85,7 @@ extern "C" void harness(void)
   VCLAIM(4, vf_nreports == want, "C04.mock_destruction_reports_once_iff_shortfall");
   if (shortfall) VCLAIM(4, (vf_last.mask & wpend) && !(vf_last.mask & wunf), "C04.mock_destruction_reason_pending");
   VCLAIM(4, !cm->is_linked(), "C04.detached_from_destroyed_mock");
+  VCLAIM(3, e->is_satisfied() == (c >= L) && e->is_saturated() == (c == H), "C03.flags_track_the_count_after_the_mock_died");
   VCLAIM(14, !cm->is_linked(), "C14.expectation_survives_its_mock_detached");
   e.reset();
   VCLAIM(4, vf_nreports == want, "C04.no_second_report_at_release");
